@@ -300,6 +300,11 @@ func (g *gm) call(c *ast.CallExpr) string {
 			return "(.call " + g.bad("?make", c) + " [])"
 		case "panic":
 			return "(.call \"panic\" " + g.args(c) + ")"
+		case "new":
+			// new(T): a fresh zero value; a record type is the empty record (its methods are external calls)
+			if len(c.Args) == 1 && g.resolve("new") == "new" {
+				return "(.lit [])"
+			}
 		}
 		if c.Ellipsis.IsValid() {
 			return "(.callSpread " + strconv.Quote(fn.Name) + " " + g.args(c) + ")"
@@ -740,6 +745,10 @@ func genGoMiniAll() []*leanFile {
 		[]string{sv + "partition.go"},
 		map[string][]string{sv + "partition.go": {"partition.getStopOffset"}},
 		[]string{sv + "partition.go", sv + "api.go"})})
+	out = append(out, &leanFile{name: "GoMessageSet", raw: genGoMini("GoMessageSet",
+		[]string{cl + "message_set.go"},
+		map[string][]string{cl + "message_set.go": {"newMessageSetFromProto"}},
+		clConsts)})
 	pr := "server/protocol/"
 	out = append(out, &leanFile{name: "GoEnvelope", raw: genGoMini("GoEnvelope",
 		[]string{pr + "envelope.go"},
